@@ -4,7 +4,7 @@
    the observation the check compares. *)
 From Errdef Require Import Base.Str Base.Outcome Model.Core Model.Convert Model.Unmarshal Check.UM Check.C13
   Proofs.C10Proofs Proofs.C13Proofs Model.Resolver Model.ResolverGen Proofs.ResolverProofs Proofs.C13Resolver
-  Model.UnmarshalGen Proofs.UnmarshalGenProofs.
+  Model.UnmarshalGen Proofs.UnmarshalGenProofs Model.GoLite Model.UnmarshalGL Proofs.UnmarshalSrc.
 
 Theorem C13_lenient_kind :
   (forall c m k t fs st cs u, u_strict c = false -> u_default c = None -> kind_known c k = false ->
@@ -78,11 +78,13 @@ Theorem C13_corr_implies_ok : forall c, UM.corr c = true -> C13.ok c = true.
 Proof. exact corr_implies_ok13. Qed.
 Print Assumptions C13_corr_implies_ok.
 
-(* Unmarshaler.resolveKind, read off the source by srcgen on this run as a decision tree over "the resolver is a
-   DefaultResolver" and "strict mode" with the two leaves ResolveKind (a miss is ErrUnknownKind carrying the kind)
-   and ResolveKindOrDefault, interpreted over a configuration, is the transcription every theorem here is about *)
-Theorem C13_resolve_kind_is_source : forall c k, g_resolve_kind_u c k = resolve_kind_u c k.
-Proof. exact g_resolve_kind_u_ref. Qed.
+(* Unmarshaler.resolveKind AS TRANSLATED FROM THE SOURCE in this run (Gen/GoLiteSrc.v, run by the GoLite interpreter
+   with the primitives of Model/UnmarshalGL.v: "the resolver is a DefaultResolver", strict mode, ResolveKind,
+   ResolveKindOrDefault, the ErrUnknownKind factory) computes, for every configuration and kind, the transcription
+   every theorem here is about *)
+Theorem C13_resolve_kind_is_source : forall n c k,
+  um_run (S n) ".resolveKind" [VD (DU c); VStr k] = enc_udef (resolve_kind_u c k).
+Proof. exact run_resolve_kind. Qed.
 Print Assumptions C13_resolve_kind_is_source.
 
 (* The kind resolution of the unmarshaler model is package resolver's, as interpreted from resolver/*.go on this
